@@ -75,6 +75,9 @@ fn specs(unit: &Value) -> Vec<(bool, RpcSpec, Option<String>)> {
                 }
                 3 => s = s.header("h-big", "x".repeat(64 * 1024)),
                 4 => s = s.header("h-", "").header("h-empty-value", ""),
+                // names differing only in letter case are different names
+                6 => s = s.header("h-Shard", "upper").header("h-shard", "lower").header("X-Request-Tag", "t").header("ETag", "e"),
+                7 => s = s.header("h-É", "upper").header("h-é", "lower").header(" h-space ", " v ").header("TIMEOUT", "abc"),
                 _ => s = s.header("h-utf8-é", "ü\u{0}\n"),
             }
             let odd_route = match variant {
@@ -417,7 +420,7 @@ impl Check for C02 {
         for mode in FAIL_MODES {
             u.push(json!({"kind":"fail","mode":mode,"bound":tier.pick(1,2),"fate_budget":tier.pick(40,80)}));
         }
-        for variant in 0..6 {
+        for variant in 0..8 {
             for ab in [true, false] {
                 u.push(json!({"kind":"hdr","variant":variant,"ab":ab,"bound":tier.pick(0,1),"fate_budget":tier.pick(0,200)}));
             }
